@@ -7,7 +7,7 @@ from ..battery import call, _Raised
 from ..observe import observe
 from .c08 import gen_hypergraph
 
-TIERS = {"quick": 400, "thorough": 5000}
+TIERS = {"quick": 800, "thorough": 12000}
 WATCHDOG_S = {"quick": 900, "thorough": 7200}
 RULE = ("case kinds: 3 of 4 a random Hypergraph (1-8 nodes, sizes 1-5, nested hyperedges, isolated nodes, all label "
         "universes) checked for bipartite, clique (both keep_isolated), line graph (intersection s in 1..4, jaccard s in "
